@@ -89,6 +89,10 @@ func (v *Verifier) generateProperty(id string) (*propRun, error) {
 			continue
 		}
 		seen[n] = true
+		if strings.HasPrefix(n, "structural/") {
+			pr.results = append(pr.results, v.VerifyStructural(strings.TrimPrefix(n, "structural/"), names))
+			continue
+		}
 		if strings.HasPrefix(n, "lemma/") {
 			lm := v.cs.Lemmas[strings.TrimPrefix(n, "lemma/")]
 			if lm == nil {
@@ -480,7 +484,7 @@ func collectLens(v Val, out *[]Term) {
 }
 
 func isNamedKind(name string) bool {
-	for _, k := range []string{"/post", "/frame", "/inv-", "lemma/", "/decreases"} {
+	for _, k := range []string{"/post", "/frame", "/inv-", "lemma/", "/decreases", "structural/", "/step", "/subtype"} {
 		if strings.Contains(name, k) {
 			return true
 		}
